@@ -4,13 +4,31 @@ BASE_NOTE = ("Trusted: Coq 8.16.1 kernel (vm_compute for witnesses/examples only
              "the correspondence harness (generators, exact-rational canonicalisation, observation mapping); CPython 3.12/numpy "
              "float64 semantics on the exact (dyadic) input families. The theorems are about the Gallina model; the tie to /repo/src "
              "is the correspondence run on every check (sampled, not proved). ")
-SOURCE_COMMITS = []
+SOURCE_COMMITS = ["bc49a1c", "e3a7f92"]   # "fix:" commits only (no guarded hooks exist)
 NOTES = ("Every check: (1) rebuilds the Coq development incrementally and re-checks coq/Props/<id>.v (grep gate for Admitted/Axiom/...); "
          "(2) runs physt from /repo/src and the extracted model on the same seeded cases; (3) applies the extracted check_<id> to the "
          "implementation's observation. VIOLATION lines carry a replay file; 'no-failing-input-found' is appended when only the "
          "correspondence or a proof broke. Known genuine defects are listed in known_findings.json.")
-NOT_CLAIMED = {}
+NOT_CLAIMED = {
+ "C01": dict(
+   technique="Coq proof of refinement (sort+searchsorted sweep = filter-and-sum, accounting) + extracted-model correspondence",
+   text=("C01_holds is proved for every case without size bound and closed under the global context: the decidable checker that "
+         "states the property (per-bin weight and squared-weight sums with half-open bins and a right-closed last bin, exact "
+         "under/overflow and total+under+over = input weight for exactly consecutive bins, NaN markers for gapped bins, NaN rows "
+         "dropped with their weights, refusal exactly for invalid input) accepts the output of the algorithm as coded. The same "
+         "extracted checker is applied to physt's real output on every generated case and the model's output is diffed against it."),
+   note=BASE_NOTE + "Modelled, not verified: numpy argsort/searchsorted/sum/allclose (documented meaning, compared on every run); "
+        "binning factories used for int/method-name bins (bins are read back; their correctness is C07)."),}
 CLAIMED = {
+ "C01": dict(
+   technique="Coq proof of refinement (sort+searchsorted sweep = filter-and-sum, accounting) + extracted-model correspondence",
+   text=("C01_holds is proved for every case without size bound and closed under the global context: the decidable checker that "
+         "states the property (per-bin weight and squared-weight sums with half-open bins and a right-closed last bin, exact "
+         "under/overflow and total+under+over = input weight for exactly consecutive bins, NaN markers for gapped bins, NaN rows "
+         "dropped with their weights, refusal exactly for invalid input) accepts the output of the algorithm as coded. The same "
+         "extracted checker is applied to physt's real output on every generated case and the model's output is diffed against it."),
+   note=BASE_NOTE + "Modelled, not verified: numpy argsort/searchsorted/sum/allclose (documented meaning, compared on every run); "
+        "binning factories used for int/method-name bins (bins are read back; their correctness is C07)."),
  "C10": dict(
    technique="Coq proof (induction over arbitrary frequency lists / N-d arrays) + extracted-model correspondence",
    text=("Theorems (all sizes, all dimensions, closed under the global context): the min_frequency loop always yields a gap-free "
